@@ -1209,10 +1209,6 @@ hypothesis; each `example` below is the theorem applied to the instance, with th
 section instances
 open Bpp.NumDeriv
 
-private theorem hin_ex (p : ℝ → ℝ) (s : Scheme) :
-    ∀ v ∈ (exW p s).vars, has (exP none) v = true → v ∈ names (exW p s).fn.params := by
-  intro v hv _; simp [exW] at hv; subst hv; simp [exW, exB, names]
-
 /-- `three_point_computes_central`, `three_point_stored_exact` on the cubic: `f''(0) = 2` stored -/
 example : (update3 (exf cubic) (exW cubic .three) (exP none)).2 = none ∧
     (update3 (exf cubic) (exW cubic .three) (exP none)).1.der2[0]? = some (some (2 * 1 + 6 * 1 * 0)) :=
@@ -1234,10 +1230,6 @@ example : (update2 (exf quadr) (exW quadr .two) (exP none)).1.der1[0]? =
   (two_point_stored_exact (exf quadr) (exW quadr .two) (exP none) (ex_own _ _) (ex_ok _ _) (ex_free _)
       (ex_bounded _ quadr_bound) (by simp [names, exP]) rfl (by simp [exW]) (hin_ex _ _) (by norm_num [exW]) rfl
       0 (by simp [exW]) rfl ⟨0, 0, 0, none⟩ rfl 1 1 1 (fun t => ex_poly quadr t)).2
-
-/-- a constraint `[lo, hi]` on the caller's side -/
-private def cn (lo hi : ℝ) : Option (Interval ℝ) := some ⟨some lo, some hi, true, true⟩
-private def qc (lo hi : ℝ) : Param ℝ := ⟨0, 0, 0, cn lo hi⟩
 
 /-- `five_point_computes_central`, `five_point_stored_exact` (no boundedness hypothesis at all: the
 five-point scheme has no VERY_BIG test) on `poly5` with coefficients `1, 1, 1, 1, 0, 0` -/
